@@ -217,6 +217,40 @@ def ir_tie(ctx: Ctx, case: Case):
         if len(samples) < 4:
             x, y = parts[0]
             samples.append({"spec": case.tag, "class": cn, "model": x[:600], "emitted": y[:600]})
+    # enum modules (members in emitted order) and the family() / action() of packets, against `gen enums` / `gen meta`
+    try:
+        en = ctx.driver.ask1("gen enums")
+        for ent in (en[3:].split(" | ") if en.startswith("ok ") and len(en) > 3 else []):
+            name, _under, members = (ent.split(" ") + ["", ""])[:3]
+            t = text_of(name)
+            try:
+                real = pyir.enum_ir(t, name) if t is not None else "unrecognised"
+            except pyir.Unrecognised as e:
+                real = "unrecognised: " + str(e)
+            same = real == members
+            ctx.count("ir_tie.enums_equal" if same else "ir_tie.enums_differing")
+            if not same:
+                case.ir_differs.append(name)
+        for cn in classes:
+            if not cn.endswith("Packet") or "." in cn:
+                continue
+            meta = ctx.driver.ask1("gen meta " + cn).split(" packet ")[-1]
+            if meta == "-" or meta.count(":") != 3:
+                continue
+            fam, fo, act, ao = meta.split(":")
+            try:
+                f, a = pyir.packet_ir(text_of(cn), cn).split()
+                same = (f.rsplit(".", 1)[0], a.rsplit(".", 1)[0]) == ("PacketFamily", "PacketAction") and \
+                    enum_value("PacketFamily", f.rsplit(".", 1)[1]) == int(fo) and enum_value("PacketAction", a.rsplit(".", 1)[1]) == int(ao)
+            except Exception:  # noqa: BLE001
+                same = False
+            ctx.count("ir_tie.packet_ids_equal" if same else "ir_tie.packet_ids_differing")
+            if not same:
+                case.ir_differs.append(cn)
+    except common.CheckAbort:
+        raise
+    except Exception as e:  # noqa: BLE001
+        ctx.count("ir_tie.enum_or_packet_comparison_failed")
     ctx.count("ir_tie.specs_equal" if not case.ir_differs else "ir_tie.specs_differing")
     if case.ir_differs:
         ctx.case_boost = 5
